@@ -168,7 +168,8 @@ def _float_to_cst(value: float) -> cst.BaseExpression:
         if "." not in float_str and "e" not in float_str:
             float_str += ".0"
         inner = cst.Float(float_str)
-    if value < 0:
+    # ``value < 0`` alone misses negative zero, which would then be rendered as ``0.0``.
+    if value < 0 or (value == 0 and math.copysign(1.0, value) < 0):
         return cst.UnaryOperation(
             operator=cst.Minus(),
             expression=inner,
